@@ -125,6 +125,29 @@ func ruleMapRange(c *engine.Context) *report.Rule {
 					r.Undischarged(construct, pos, "map range whose loop shape is not recognised")
 					continue
 				}
+				// order-neutral form: the body only copies entries into another map under the same key
+				// (writes under distinct keys commute; nothing else happens in the loop)
+				copyForm, updates := true, 0
+				for blk := range loop.Blocks {
+					for _, x := range blk.Instrs {
+						switch y := x.(type) {
+						case *ssa.MapUpdate:
+							k, isK := y.Key.(*ssa.Extract)
+							v, isV := y.Value.(*ssa.Extract)
+							if !isK || !isV || k.Tuple != ssa.Value(next) || k.Index != 1 || v.Tuple != ssa.Value(next) || v.Index != 2 || y.Map == rg.X || loop.Blocks[blockOf(y.Map)] {
+								copyForm = false
+							}
+							updates++
+						case *ssa.Call, *ssa.Defer, *ssa.Go, *ssa.Send, *ssa.Panic, *ssa.Store:
+							copyForm = false
+						}
+					}
+				}
+				if copyForm && updates > 0 {
+					r.Oblige(true)
+					r.Sample("%s: range over %s only copies entries into another map under the same key (order-neutral)", load.FuncName(fn), rg.X.Name())
+					continue
+				}
 				// body: only stores of the key into elements of one slice held in cell C
 				var cell ssa.Value
 				var idxPhi *ssa.Phi
@@ -873,7 +896,11 @@ func ruleSeq(c *engine.Context) *report.Rule {
 			r.Oblige(ok)
 			r.Sample("%s: %s, complete=%v, single exit=%v", construct, kind, complete, single)
 			if !okKind {
-				r.Undischarged(construct+": shape", pos, "loop in an evaluation step whose iteration scheme is not recognised (%s)", kind)
+				f := r.Undischarged(construct+": shape", pos, "loop in an evaluation step whose iteration scheme is not recognised (%s)", kind)
+				if ind.Kind == cfgutil.LoopMapRange {
+					// a range over a map terminates and stays in bounds; what is open is the order of its iterations
+					engine.Restrict(f, "C07", "C08")
+				}
 			} else if !ok {
 				r.Violation(construct+": "+map[bool]string{true: "early exit", false: "incomplete"}[!single], pos, "a member/selector loop must visit every element in order: %s", why)
 			}
